@@ -141,6 +141,11 @@ def reader_check(case):
         sr0.compress_file(keep_original=False, n_threads=1, quiet=True, check_after_compress=False, chunk_duration=1000 / sr0.fs)
         sr0.close()
         fbin = fbin.replace(".bin", ".cbin")
+    if typ == "imec" and kind in ("3B2", "NP2.4"):
+        # the data file as a symbolic link into a data store whose folder holds ANOTHER acquisition's metadata of the same name (no sync channel saved):
+        # the recording's own metadata, next to the link, decide what the sync channel is
+        items2 = [(a, ("4,0,0" if a == "snsApLfSy" else ("4" if a == "nSavedChans" else b))) for a, b in synth.meta_items(kind, sites, ns)]
+        synth.link_into_store(fbin, synth.meta_text(items2))
     sr = spikeglx.Reader(fbin)
     try:
         for sl in (slice(0, ns), slice(None), slice(100, 4321), slice(65000, 70000), slice(0, 1), slice(5, 5000, 7) if suffix == ".bin" else slice(999, 1001)):
